@@ -268,6 +268,24 @@ def check_truthiness(ctx, ix):
     ctx.ok('C01.R7', 'kmip/core/**', '%d encodable classes scanned for truthiness overrides; %d truthiness presence tests rely on them' % (n_cls, n_tests))
 
 
+def check_lossless_decoders(ctx, pt):
+    """C01.R8: primitive decoders store what they read."""
+    ctx.rule('C01.R8', 'the primitive decoders keep the value they read: no read method post-processes the value field with a normalising operation (strip/rstrip/lstrip/replace/lower/upper/casefold/translate/normalize, slicing of the value): a value the encoder emits must come back unchanged')
+    NORM = {'strip', 'rstrip', 'lstrip', 'replace', 'lower', 'upper', 'casefold', 'title', 'translate', 'normalize', 'expandtabs', 'zfill', 'removeprefix', 'removesuffix'}
+    n = 0
+    for c in [x for x in pt.body if isinstance(x, ast.ClassDef)]:
+        for fn in [f for f in c.body if isinstance(f, ast.FunctionDef) and (f.name == 'read' or f.name.startswith('read_'))]:
+            for a in walk_local(fn):
+                if not (isinstance(a, (ast.Assign, ast.AugAssign)) and any(is_self_attr(t, 'value') for t in (a.targets if isinstance(a, ast.Assign) else [a.target]))):
+                    continue
+                n += 1
+                bad = [x for x in ast.walk(a.value) if (isinstance(x, ast.Call) and isinstance(x.func, ast.Attribute) and x.func.attr in NORM)
+                       or (isinstance(x, ast.Subscript) and isinstance(x.slice, ast.Slice) and is_self_attr(x.value, 'value'))]
+                ctx.check(not bad, 'C01.R8', '%s.%s|value-normalised' % (c.name, fn.name), '%s:%s %s.%s' % (PRIM, a.lineno, c.name, fn.name), 'value stored as read',
+                          'the decoder rewrites the value it read (%s): a value that encodes fine comes back different, and re-encoding the decoded value gives other bytes' % U(a.value)[:80])
+    ctx.count('primitive_value_stores_in_readers', n, 8)
+
+
 def run(ctx):
     src = ctx.src
     sch = Schema(src)
@@ -411,8 +429,8 @@ def run(ctx):
                     pad = ev(s.value)
                     if corrected and pad == ps:
                         pad = 0
-                    if guarded_lt and pad >= ps:
-                        pad = 0      # the reader only consumes padding when pad < PADDING_SIZE
+                    # (a reader that merely skips consuming when pad >= PADDING_SIZE still leaves that value in self.padding_length,
+                    #  which write_value trusts when the decoded object is encoded again: no exemption for such a guard)
                     if not (0 <= pad < ps and (length + pad) % ps == 0):
                         bad.append((res, pad))
                 ctx.check(not bad, 'C01.R3', '%s.%s|padding-arithmetic' % (c.name, mname), '%s:%s %s.%s' % (PRIM, s.lineno, c.name, mname), 'length + pad is a multiple of %d with 0 <= pad < %d for all residues' % (ps, ps),
@@ -421,6 +439,7 @@ def run(ctx):
     check_biginteger_sign_room(ctx, pt)
     check_shared_defaults(ctx)
     check_truthiness(ctx, sch.ix)
+    check_lossless_decoders(ctx, pt)
 
     # ---------------- R4 factories
     fm = FactoryModel(src, sch.ix)
